@@ -135,9 +135,9 @@ impl FieldElement for BaseElement {
 
     #[inline]
     fn double(self) -> Self {
-        let ret = (self.0 as u128) << 1;
-        let (result, over) = (ret as u64, (ret >> 64) as u64);
-        Self(result.wrapping_sub(M * over))
+        // the previous hand-rolled version reduced only when 2 * x overflowed 64 bits and left
+        // values in [M, 2^64) unreduced, i.e., in a non-canonical representation
+        self + self
     }
 
     #[inline]
